@@ -21,7 +21,10 @@ Kernel operations (the model predicts the value; byte strings are hex, `-` = emp
 
     bpmap <sym> <symindex> [<intent>|<ties>] <addr|iter>*
                                     → served notbreakpad | served nomodule | served panic
-                                      | served <look> ; <look> ; …      one `.sym` text served with a stored index
+                                      | served id <DEBUGID> ; <look> ; <look> ; …   one `.sym` text served with a stored index;
+                                        `<DEBUGID>` = `map.debug_id().breakpad()`, the id the served map REPORTS (`BPC.servedId`:
+                                        the last MODULE line of the module info of the index in use — a sidecar with a second
+                                        MODULE line would report another build than the text it serves, fix d2664d76)
                                         (own / of another file with the same or another MODULE line / corrupted);
                                         which index the map uses is C10's `BP.mapStored` (`BPC.serve`); lookups on ONE map;
                                         <look> = none | panic
@@ -109,18 +112,33 @@ def pickOfToken (tok : String) : BP.Pick :=
     | none => 0
   ⟨f "s", f "f", f "o"⟩
 
-def showServed : BPC.Served → String
+def upperHexByte (b : UInt8) : UInt8 := if 97 ≤ b.toNat ∧ b.toNat ≤ 102 then b - 32 else b
+
+/-- `DebugId::breakpad()` display of the id token of a MODULE line (debugid-0.8.0 lib.rs:378-390): the 32 (or, for
+the 9..16-digit PDB 2.0 form, 8) leading digits in upper case, then the age in lower-case hex without leading
+zeros (same rendering as C10's driver) -/
+def debugIdString (id : List UInt8) : String :=
+  let k := if 9 ≤ id.length ∧ id.length ≤ 16 then 8 else 32
+  String.ofList (((id.take k).map upperHexByte).map (fun b => Char.ofNat b.toNat))
+    ++ String.ofList (Nat.toDigits 16 (BP.hexValue (id.drop k)))
+
+def showId : Option (List UInt8) → String
+  | some id => "id " ++ debugIdString id
+  | none => "id ?"
+
+/-- `id` = the debug id the served map reports (`BPC.servedId`) -/
+def showServed (id : Option (List UInt8)) : BPC.Served → String
   | .noModule => "served nomodule"
   | .mapPanic => "served panic"
   | .notBreakpad => "served notbreakpad"
-  | .looks ls => "served " ++ " ; ".intercalate (ls.map showLook)
+  | .looks ls => "served " ++ " ; ".intercalate (showId id :: ls.map showLook)
   | .session pre names post =>
     let it := match names with
       | none => "iter panic"
       | some ns =>
         if ns.isEmpty then "iter 0"
         else s!"iter {ns.length} " ++ ",".intercalate (ns.map fun p => s!"{p.1}:{bytesHex p.2}")
-    "served " ++ " ; ".intercalate (pre.map showLook ++ [it] ++ post.map showLook)
+    "served " ++ " ; ".intercalate (showId id :: (pre.map showLook ++ [it] ++ post.map showLook))
 
 def modelOp (l : String) : String :=
   match words l with
@@ -166,10 +184,11 @@ def modelOp (l : String) : String :=
   | "bpmap" :: t :: i :: rest =>
     let pick := pickOfToken ((rest.find? (·.contains '|')).getD "|")
     let addrs := rest.filter (fun w => !w.contains '|')
+    let id := BPC.servedId pick (hexBytes t) (hexBytes i)
     if addrs.contains "iter" then
-      showServed (BPC.serveSession pick (hexBytes t) (hexBytes i) ((addrs.takeWhile (· != "iter")).map nat!)
+      showServed id (BPC.serveSession pick (hexBytes t) (hexBytes i) ((addrs.takeWhile (· != "iter")).map nat!)
         (((addrs.dropWhile (· != "iter")).drop 1).map nat!))
-    else showServed (BPC.serve pick (hexBytes t) (hexBytes i) (addrs.map nat!))
+    else showServed id (BPC.serve pick (hexBytes t) (hexBytes i) (addrs.map nat!))
   | ["errjson", m] => s!"json {bytesHex (JT.errorJson (hexBytes m))}"
   | ["badurl", p] =>
     match JT.dispatch (hexBytes p) with
